@@ -925,3 +925,29 @@ package objects
 //@   sweep
 //@   mode nopanic=off
 //@   at[fits] call objects.Queue.GetApplication#1: assert fitsHR(qpc.preemptableResource, victim.allocatedResource) && victimAlloc == victim.allocatedResource
+
+// ================================================================ C16: queue removal
+
+// a queue is only unlinked when it has neither children nor applications (whatever its leaf flag says) and, if it is
+// a configured queue, is no longer running
+//@ spec abstract qrunning(q *Queue) bool
+//@ func (sq *Queue) RemoveQueue() (ok bool)
+//@   props C16
+//@   sweep
+//@   mode nopanic=off
+//@   at[state] call objects.Queue.IsRunning#1 after: assume ret == qrunning(sq)
+//@   ensures[empty] ok ==> old(len(sq.children)) == 0 && old(len(sq.applications)) == 0
+//@   ensures[stopped] ok ==> !(sq.isManaged && qrunning(sq))
+//@   at[unlink] call objects.Queue.removeChildQueue#1: assert arg0 == sq.parent && arg1 == sq.Name && len(sq.children) == 0 && len(sq.applications) == 0
+
+//@ func newBlankQueue() (q *Queue)
+//@   props C16
+//@   sweep
+//@   mode nopanic=off
+//@   ensures q != nil && fresh(q)
+
+//@ func NewConfiguredQueue(conf configs.QueueConfig, parent *Queue, silence bool, appQueueMapping *AppQueueMapping) (q *Queue, err error)
+//@   props C16
+//@   sweep
+//@   mode nopanic=off
+//@   ensures err == nil ==> q != nil && fresh(q)
